@@ -578,6 +578,9 @@ func (c *Ctx) classifyLoop(l *randLoop, tr *core.Tracer) []orderIssue {
 					return
 				}
 				if c.elemDerived(x.Key, l, 8) {
+					if attr := c.elemAttribute(x.Key, l, 8); attr != "" && !c.elemDerived(x.Map, l, 8) {
+						issues = append(issues, orderIssue{x, "a map of an object that outlives the iteration gets an entry under " + attr + " of the current element, which two elements can share: which element's entry is kept depends on the iteration order"})
+					}
 					return
 				}
 				issues = append(issues, orderIssue{x, "a map entry under a key that does not come from the current element is overwritten in every iteration: the last element visited wins"})
@@ -598,9 +601,41 @@ func (c *Ctx) classifyLoop(l *randLoop, tr *core.Tracer) []orderIssue {
 				} else {
 					callees = core.Callees(c.G, x)
 				}
+				if len(callees) == 0 {
+					// a local closure called through its variable
+					for _, src := range append(traceSources(x.Common().Value), x.Common().Value) {
+						switch f := src.(type) {
+						case *ssa.Function:
+							callees = append(callees, f)
+						case *ssa.MakeClosure:
+							callees = append(callees, f.Fn.(*ssa.Function))
+						}
+					}
+				}
 				for _, callee := range callees {
 					if !c.P.InPkg(callee) || callee == l.body {
 						continue
+					}
+					// entries the callee makes under a key it is handed: judged like an entry made here
+					for _, cf := range core.WithAnon(callee) {
+						core.EachInstr(cf, func(j ssa.Instruction) {
+							mu, ok := j.(*ssa.MapUpdate)
+							if !ok {
+								return
+							}
+							if _, isConst := mu.Value.(*ssa.Const); isConst {
+								return
+							}
+							for pi, p := range callee.Params {
+								if peelConv(mu.Key) != ssa.Value(p) || pi >= len(x.Common().Args) {
+									continue
+								}
+								arg := x.Common().Args[pi]
+								if attr := c.elemAttribute(arg, l, 8); attr != "" {
+									issues = append(issues, orderIssue{x, "the iteration calls " + core.FuncName(callee) + ", which makes a map entry under the key it is handed - here " + attr + " of the current element, which two elements can share: which element's entry is kept depends on the iteration order"})
+								}
+							}
+						})
 					}
 					if rs := callee.Signature.Results(); rs.Len() > 0 && (isErrorType(rs.At(rs.Len()-1).Type()) || tBool(rs.At(0).Type())) {
 						bodyEvaluates = true
@@ -965,4 +1000,57 @@ func nearestStore(ret *ssa.Return, cell *ssa.Alloc) *ssa.Store {
 		b = b.Preds[0]
 	}
 	return nil
+}
+
+func peelConv(v ssa.Value) ssa.Value {
+	for {
+		switch x := v.(type) {
+		case *ssa.Convert:
+			v = x.X
+		case *ssa.ChangeType:
+			v = x.X
+		default:
+			return v
+		}
+	}
+}
+
+// elemAttribute: v is read from a field of (what) the current element (points to) - an attribute that two
+// elements can have in common, unlike the element itself or a value freshly made from it. Returns a
+// description of the attribute, or "".
+func (c *Ctx) elemAttribute(v ssa.Value, l *randLoop, depth int) string {
+	if depth == 0 || v == nil {
+		return ""
+	}
+	switch x := v.(type) {
+	case *ssa.UnOp:
+		if x.Op != token.MUL {
+			return ""
+		}
+		if fa, ok := x.X.(*ssa.FieldAddr); ok && c.elemDerived(fa.X, l, depth-1) {
+			return "the field " + c.fieldName(fa.X.Type(), fa.Field)
+		}
+		if cell := resolveCell(x.X); cell != nil {
+			for _, sv := range cellStores(cell) {
+				if a := c.elemAttribute(sv, l, depth-1); a != "" {
+					return a
+				}
+			}
+		}
+	case *ssa.Field:
+		if c.elemDerived(x.X, l, depth-1) {
+			return "the field " + c.fieldName(x.X.Type(), x.Field)
+		}
+	case *ssa.Convert:
+		return c.elemAttribute(x.X, l, depth-1)
+	case *ssa.ChangeType:
+		return c.elemAttribute(x.X, l, depth-1)
+	case *ssa.Phi:
+		for _, e := range x.Edges {
+			if a := c.elemAttribute(e, l, depth-1); a != "" {
+				return a
+			}
+		}
+	}
+	return ""
 }
